@@ -446,6 +446,13 @@ func installHooks(S *sched.Sched) {
 	if statementLevel() {
 		// in the binary whose hc packages carry a scheduling point before every statement: those points too
 		vyield.Hook = hclog.VerifYield
+		vyield.GoHook = func(fn func()) { // a go statement of hc starts a managed thread
+			if S.Active() {
+				S.Spawn(fn)
+			} else {
+				go fn()
+			}
+		}
 	}
 }
 
@@ -457,6 +464,7 @@ func removeHooks() {
 	vsync.HookCondWait, vsync.HookActive = nil, nil
 	hclog.VerifYield = nil
 	vyield.Hook = nil
+	vyield.GoHook = nil
 }
 
 // execute runs one schedule of a scenario.
